@@ -188,6 +188,19 @@ impl GrammarInit {
     }
 }
 
+/// Verification hook: the grammar the front end produces and the one `Grammar::optimize` turns it
+/// into (what `compile_grammar` does before compiling), as structured dumps.
+#[cfg(feature = "llg_verif")]
+pub fn verif_optimizer_dump(
+    top: crate::api::TopLevelGrammar,
+    tok_env: Option<TokEnv>,
+    limits: ParserLimits,
+) -> Result<(Vec<super::grammar::VerifSym>, Vec<super::grammar::VerifSym>)> {
+    let (grammar, _lexer_spec) = GrammarInit::Serialized(top).to_internal(tok_env, limits)?;
+    let opt = grammar.optimize();
+    Ok((grammar.verif_dump(), opt.verif_dump()))
+}
+
 fn compile_grammar(
     t0: Instant,
     mut grammar: Grammar,
